@@ -3,7 +3,7 @@ Whole-file refinement: the operational `simpleDecompress` (Qco/Op/Decomp.lean) c
 specification decoder `decodeFile` (Qco/Spec/File.lean) says.
 
 Part A: units — `unitL eagerMatcher` is `unit` up to the threaded position; `drainR` vs `iterUnits`;
-        a lazy matcher (`LazyOf`) can only turn an answer into `insufficient`, and does not when
+        a lazy matcher (`WeakLazyOf`) can only turn an answer into `insufficient`, and does not when
         `lookahead` more bits follow.
 -/
 import Qco.Lemmas.Kraft
@@ -146,7 +146,7 @@ theorem safe_unitL_tail (t : Table) (pos p : Nat) :
   · exact safe_bind (safe_decVarintC _ _) (fun _ => safe_bind (safe_decOffsetC _ _) (fun _ => safe_pure _))
 
 /-- a lazy matcher's unit is the eager unit or `insufficient` -/
-theorem unitL_lazy (L : Matcher) (hL : LazyOf L) (t : Table) (ht : completeTree t.codes = true)
+theorem unitL_lazy (L : Matcher) (hL : WeakLazyOf L) (t : Table) (ht : completeTree t.codes = true)
     (ps : PState) (s : Bits) :
     unitL L t ps s = unitL eagerMatcher t ps s ∨ unitL L t ps s = .insufficient := by
   obtain ⟨st, pos⟩ := ps
@@ -162,7 +162,7 @@ theorem unitL_lazy (L : Matcher) (hL : LazyOf L) (t : Table) (ht : completeTree 
       simp only [Parser.bind, h]
 
 /-- … and it is the eager unit when `lookahead` more bits follow the unit -/
-theorem unitL_lazy_slack (L : Matcher) (hL : LazyOf L) (t : Table) (ht : completeTree t.codes = true)
+theorem unitL_lazy_slack (L : Matcher) (hL : WeakLazyOf L) (t : Table) (ht : completeTree t.codes = true)
     (ps : PState) (s : Bits) (v : Nat × PState) (r : Bits)
     (h : unitL eagerMatcher t ps s = .ok v r) (hr : lookahead ≤ r.length) :
     unitL L t ps s = .ok v r := by
@@ -302,7 +302,7 @@ theorem drainR_rest_le {σ : Type} (u : σ → Parser (Nat × σ))
     | compat => rw [drainR_succ_compat _ _ _ _ h]; exact Nat.le_refl _
 
 /-- a lazy matcher's drain is the eager drain or stops with `insufficient` -/
-theorem drainR_lazy (L : Matcher) (hL : LazyOf L) (t : Table) (ht : completeTree t.codes = true)
+theorem drainR_lazy (L : Matcher) (hL : WeakLazyOf L) (t : Table) (ht : completeTree t.codes = true)
     (n : Nat) (ps : PState) (s : Bits) :
     drainR (unitL L t) n ps s = drainR (unitL eagerMatcher t) n ps s ∨
       (drainR (unitL L t) n ps s).2.2.2 = some .insufficient := by
@@ -331,7 +331,7 @@ theorem drainR_lazy (L : Matcher) (hL : LazyOf L) (t : Table) (ht : completeTree
       rw [drainR_succ_insufficient _ _ _ _ h]
 
 /-- … and it is the eager drain when that one succeeds and leaves `lookahead` bits -/
-theorem drainR_lazy_slack (L : Matcher) (hL : LazyOf L) (t : Table) (ht : completeTree t.codes = true)
+theorem drainR_lazy_slack (L : Matcher) (hL : WeakLazyOf L) (t : Table) (ht : completeTree t.codes = true)
     (n : Nat) (ps : PState) (s : Bits)
     (hok : (drainR (unitL eagerMatcher t) n ps s).2.2.2 = none)
     (hr : lookahead ≤ (drainR (unitL eagerMatcher t) n ps s).2.2.1.length) :
